@@ -29,7 +29,7 @@ func VerifH_C02_go_api() {
 	case tk == 14:
 		vm.Run("T = {}; T.p = T; T.m = function () { return T }")
 	default:
-		vm.Run("T = function () { return this }; T.p = function () { return arguments.length }; T.toString = function () { return {} }")
+		vm.Run("T = function () { return this }; T.p = function () { return [arguments.length, T.p.caller, arguments.callee.caller, T.caller] }; T.toString = function () { return {} }")
 	}
 	verifSetKind(vm, "A", verifChoose(8), maxStr)
 	t, _ := vm.Get("T")
